@@ -114,8 +114,9 @@ def make_cases(rng, tier):
     dom = list(range(-9, 10))
     rows1 = [{a: v} for v in dom]
     rngs = [(s, e, st) for s in range(-B, B + 1) for e in range(-B, B + 1) for st in (1, 2, 3, 4, -1, -2, -3, -4)]
-    if tier == "quick":
-        rngs = rng.sample(rngs, 160) + [(2, 11, 3), (3, 4, 1), (3, 6, 1), (-5, 5, 3), (10, 0, -2), (5, 6, -1), (0, 0, 1)]
+    rngs += [(2, 11, 3), (3, 4, 1), (3, 6, 1), (-5, 5, 3), (10, 0, -2), (5, 6, -1), (0, 0, 1)]
+    # ranges of exactly one, two and three members, whose last member is the last value before the stop or earlier
+    rngs += [(s, s + sg * (m * k + d), sg * k) for s in (-7, -1, 0, 2) for k in (2, 3, 5) for m in (0, 1, 2) for d in (1, 2) for sg in (1, -1)]
     for s, e, st in rngs:
         item = ("ref", a) if rng.random() < 0.8 else ("sub", ("ref", a), ("lit", 1))
         pcs.append(pcase(("in", item, ("range", s, e, st)), [a], rows1))
